@@ -40,8 +40,8 @@ theorem windows_partition (cfg : Cfg K) (j : Nat) (tl : List Int) (hs : tl.Pairw
     daysSum cfg j tl rows (List.range' 1 n) = qsum cfg j (rows.filter fun r => decide (a < r.1 ∧ r.1 ≤ b)) :=
   daysSum_range j tl hs n hlen a b ha hb rows
 
-/-- … and with row 0 called as well (a shadow copy is stepped on the synthetic row, `start = Timestamp.min`): the rows stamped
-    up to `tl[n]` -/
+/-- … and if row 0 were called as well (`start = Timestamp.min`; no tree is run there - before the repair of
+    `StrategyBase.update` a shadow copy was): the rows stamped up to `tl[n]` -/
 theorem windows_partition_from_zero (cfg : Cfg K) (j : Nat) (tl : List Int) (hs : tl.Pairwise (· < ·)) (n : Nat)
     (hlen : tl.length = n + 1) (a b : Int) (ha : tl[0]? = some a) (hb : tl[n]? = some b) (rows : List (Int × BRow K)) :
     daysSum cfg j tl rows (List.range' 0 (n + 1)) = qsum cfg j (rows.filter fun r => decide (r.1 ≤ b)) :=
@@ -70,15 +70,17 @@ theorem replay_positions_plain (cfg : Cfg K) (p : ProgR K) (hs : p.timeline.Pair
   rw [(replay_positions cfg p hs n hlen a b ha hb capital w r hf h hnb).2 j,
     qsum_eq_plainSum j _ fun x hx => hq x (List.mem_of_mem_filter hx)]
 
-/-- **the shadow copy of a blotter-driven sub-strategy** is stepped on every row, the synthetic one included (the loop
-    `update; run; update` over rows `0..n`): its positions move by the rows stamped up to `tl[n]` -/
+/-- **the shadow copy of a blotter-driven sub-strategy** is updated on the synthetic row and gets the loop body
+    `update; run; update` on rows `1..n` (`paperLoop`): its positions move by the rows stamped in `(tl[0], tl[n]]` - exactly as
+    in the stand-alone backtest of its definition (`replay_positions`); rows stamped at or before the synthetic stamp are never
+    executed by the copy either -/
 theorem shadow_replay_positions (cfg : Cfg K) (p : ProgR K) (hs : p.timeline.Pairwise (· < ·)) (n : Nat)
     (hlen : p.timeline.length = n + 1) (a b : Int) (ha : p.timeline[0]? = some a) (hb : p.timeline[n]? = some b)
     (w r : World K) (hf : Flat w)
-    (h : btLoop cfg (progRunR cfg p []) (List.range' 0 (n + 1)) w = .ok r) (hnb : r.bankrupt = false) :
-    Flat r ∧ ∀ j, posAt r j = posAt w j + qsum cfg j (p.rows.filter fun x => decide (x.1 ≤ b)) := by
-  obtain ⟨hfr, hp⟩ := btLoop_pos p _ hf h hnb
-  exact ⟨hfr, fun j => by rw [hp j, daysSum_range0 j p.timeline hs n hlen a b ha hb p.rows]⟩
+    (h : paperLoop cfg (progRunR cfg p []) (0 :: List.range' 1 n) w = .ok r) (hnb : r.bankrupt = false) :
+    Flat r ∧ ∀ j, posAt r j = posAt w j + qsum cfg j (p.rows.filter fun x => decide (a < x.1 ∧ x.1 ≤ b)) := by
+  obtain ⟨hfr, hp⟩ := paperLoop_pos p hf (fun d hd => by have := (List.mem_range'_1.1 hd).1; omega) h hnb
+  exact ⟨hfr, fun j => by rw [hp j, daysSum_range j p.timeline hs n hlen a b ha hb p.rows]⟩
 
 /-- a run over any list of dates: the sum over the days (no hypothesis on the timeline) -/
 theorem replay_loop_positions (cfg : Cfg K) (p : ProgR K) (ds : List Nat) (w r : World K) (hf : Flat w)
@@ -124,8 +126,24 @@ example : ∃ r, btRun cfgE (progRunR cfgE progRQ []) 1000 (0 :: List.range' 1 3
   exact ⟨r, hr, ha,
     replay_positions_plain cfgE progRQ tlE_increasing 3 rfl 0 30 rfl rfl (by decide +kernel) 1000 wRA r wRA_flat hr ha⟩
 
-/-- the shadow copy's loop (rows 0..3) would also execute the row stamped −5 - on row 0, where `x` has no price: the model
-    raises there (the hypothesis "the run completed" is not met; the harness keeps such rows out of nested programs) -/
+/-- the loop body on row 0 as well (rows 0..3; what a shadow copy was given before the repair of `StrategyBase.update`) would
+    also execute the row stamped −5 - on row 0, where `x` has no price: the model raises there … -/
 example : (btLoop cfgE (progRunR cfgE progRA []) (List.range' 0 4) wRA).toOption.isSome = false := by decide +kernel
+
+/-- … while the shadow copy as it is stepped now (funded by `setup`, updated on row 0, the loop body on rows 1..3)
+    completes, and by the theorem ends with the positions of the stand-alone backtest: `x` 4, `y` 3 -/
+example : ∃ w1 r, opAdjust wRA [] 1000 true true = .ok w1 ∧
+    paperLoop cfgE (progRunR cfgE progRA []) (0 :: List.range' 1 3) w1 = .ok r ∧
+    (∀ j, posAt r j = posAt wRA j + qsum cfgE j (progRA.rows.filter fun x => decide (0 < x.1 ∧ x.1 ≤ 30))) ∧
+    posAt r 0 = 4 ∧ posAt r 1 = 3 := by
+  have hA : ((opAdjust wRA [] 1000 true true).bind
+      (paperLoop cfgE (progRunR cfgE progRA []) (0 :: List.range' 1 3))).toOption.map
+      (fun r => (r.bankrupt, posAt r 0, posAt r 1)) = some (false, 4, 3) := by decide +kernel
+  obtain ⟨r, hr, ha⟩ := P16.exists_of_toOption_map hA
+  simp only [Prod.mk.injEq] at ha
+  obtain ⟨w1, h1, hp⟩ := P08.bind_eq_ok hr
+  obtain ⟨hf1, hp1⟩ := opAdjust_root_pos wRA_flat h1
+  refine ⟨w1, r, h1, hp, fun j => ?_, ha.2.1, ha.2.2⟩
+  rw [(shadow_replay_positions cfgE progRA tlE_increasing 3 rfl 0 30 rfl rfl w1 r hf1 hp ha.1).2 j, hp1 j]
 
 end Bt.C18
